@@ -329,6 +329,16 @@ def mask_textline_by_region(baseline, textline, region):
     baseline_is = region_shpl.intersection(baseline_shpl)
     textline_is = region_shpl.intersection(textline_shpl)
 
+    # touching boundaries leave lower-dimensional pieces next to the actual intersection
+    if isinstance(textline_is, sg.GeometryCollection):
+        polygons = [geom for geom in textline_is.geoms if isinstance(geom, sg.Polygon)]
+        if polygons:
+            textline_is = polygons[0] if len(polygons) == 1 else sg.MultiPolygon(polygons)
+    if isinstance(baseline_is, sg.GeometryCollection):
+        line_strings = [geom for geom in baseline_is.geoms if isinstance(geom, sg.LineString)]
+        if line_strings:
+            baseline_is = line_strings[0] if len(line_strings) == 1 else sg.MultiLineString(line_strings)
+
     if isinstance(textline_is, sg.MultiPolygon):  # this can happen generally with some combinations of layout and line detection
         areas = np.array([poly.area for poly in textline_is.geoms])
         textline_is = textline_is.geoms[np.argmax(areas)]
